@@ -12,8 +12,21 @@
 
    [ls] is the model of invocation_alloc/invocation_walk + the loop of
    robsd-ls.c main (Inv/LsDefs.v), [listing_spec], [blt], [qualifies] the
-   specification (Inv/LsSpec.v). *)
-From Robsd Require Import Inv.LsSpec Inv.LsProofs.
+   specification (Inv/LsSpec.v).
+
+   PARTIAL in two places, each with the exact guard and a refutation outside:
+   (1) "subdirectory" is what readdir(3) ANSWERS in d_type.  In terms of what
+       the entries really are the statement holds when the file system fills
+       in d_type faithfully (C15_exact_set_real); on a file system answering
+       DT_UNKNOWN nothing at all is listed, with exit 0
+       (C15_dt_unknown_lists_nothing; replayed with tools/iv_dtype_preload.c,
+       findings/C15_dt_unknown.md).
+   (2) "the directory named by the lock file" is the entry whose printed path
+       EQUALS the lock's first line.  For the directory the lock DENOTES the
+       clause holds exactly when the lock spells the path as robsd-ls prints it
+       (C15_B_omits_denoted_iff, _partial); any other spelling leaves it listed
+       (known finding B-lists-lock-target-spelled-differently). *)
+From Robsd Require Import Inv.LsSpec Inv.LsProofs Inv.LsReal Inv.PurgeSpec Inv.PurgeProofs.
 Local Open Scope N_scope.
 
 (* exactly the non-hidden subdirectories other than the keep directory *)
@@ -24,6 +37,50 @@ Theorem C15_exact_set : forall sortf root keepdir lock ents p,
               mkpath root (d_name de) <> keepdir /\ p = mkpath root (d_name de)).
 Proof. exact exact_set. Qed.
 Print Assumptions C15_exact_set.
+
+(* (1) in terms of what the entries REALLY are ([real name], the kind lstat(2)
+   would report): when readdir answers d_type faithfully the listed set is
+   exactly the real non-hidden subdirectories other than the keep directory *)
+Theorem C15_exact_set_real : forall sortf root keepdir lock ents real p,
+  sorts sortf -> faithful real ents ->
+  (In p (ls sortf root keepdir false lock ents) <->
+   exists de, In de ents /\ real (d_name de) = DT_DIR /\ hidden (d_name de) = false /\
+              mkpath root (d_name de) <> keepdir /\ p = mkpath root (d_name de)).
+Proof. exact exact_set_real. Qed.
+Print Assumptions C15_exact_set_real.
+
+(* ... and when it does not: a real directory answered as DT_UNKNOWN is not
+   listed; a file system that never fills in d_type yields the empty listing
+   with exit status 0, whatever the root holds *)
+Theorem C15_dt_unknown_lists_nothing : forall sortf root keepdir skipB lock ents,
+  sorts sortf ->
+  (forall real de, distinct_names ents -> In de ents -> real (d_name de) = DT_DIR -> d_type de = DT_UNKNOWN ->
+     ~ In (mkpath root (d_name de)) (ls sortf root keepdir skipB lock ents)) /\
+  ((forall de, In de ents -> d_type de = DT_UNKNOWN) ->
+     ls sortf root keepdir skipB lock ents = [] /\
+     ls_main sortf root keepdir skipB lock (Some ents) = (0, [])).
+Proof.
+  exact (fun sortf root keepdir skipB lock ents Hs =>
+    conj (fun real de Hn Hin Hr Hu => unknown_directory_not_listed sortf root keepdir skipB lock ents real de Hs Hn Hin Hr Hu)
+         (all_unknown_lists_nothing sortf root keepdir skipB lock ents Hs)).
+Qed.
+Print Assumptions C15_dt_unknown_lists_nothing.
+
+Theorem C15_exact_set_real_refuted :
+  exists root keepdir ents real,
+    (forall de, In de ents -> real (d_name de) = DT_DIR /\ hidden (d_name de) = false /\ mkpath root (d_name de) <> keepdir) /\
+    ents <> [] /\ ls_exec root keepdir false None ents = [].
+Proof. exact dt_unknown_refuted. Qed.
+Print Assumptions C15_exact_set_real_refuted.
+
+(* the listing is the list of invocations the cleaning specification speaks
+   about (Inv/PurgeSpec.v [invocation]): the bridge C16 rests on *)
+Theorem C15_listing_is_invocations : forall sortf rootstr f lock p,
+  sorts sortf ->
+  (In p (ls sortf rootstr (keepdir_of rootstr) false lock (dirents_of f)) <->
+   exists v, invocation f v /\ p = mkpath rootstr v).
+Proof. exact (fun sortf rootstr f lock p Hs => listing_invocation sortf Hs rootstr f lock p). Qed.
+Print Assumptions C15_listing_is_invocations.
 
 (* plain files, symbolic links (also to directories), entries of unknown type,
    hidden entries and the keep directory are never listed, with or without -B *)
@@ -84,6 +141,32 @@ Theorem C15_B_omits_denoted_directory_refuted :
 Proof. exact respelled_lock_not_omitted. Qed.
 Print Assumptions C15_B_omits_denoted_directory_refuted.
 
+(* (2) in general, not for one witness: a qualifying directory is left out by
+   -B exactly when the lock's first line is byte for byte the path robsd-ls
+   prints for it; hence every other spelling [b] leaves it in the listing; and
+   under the guard "spelled as printed" -B omits that directory and nothing else *)
+Theorem C15_B_omits_denoted_iff : forall sortf root keepdir lock ents name,
+  sorts sortf -> In (mkde name DT_DIR) ents -> hidden name = false -> mkpath root name <> keepdir ->
+  (In (mkpath root name) (ls sortf root keepdir true lock ents) <->
+   running_builddir lock <> Some (mkpath root name)).
+Proof. exact B_omits_iff. Qed.
+Print Assumptions C15_B_omits_denoted_iff.
+
+Theorem C15_B_respelled_still_listed : forall sortf root keepdir lock ents name b,
+  sorts sortf -> In (mkde name DT_DIR) ents -> hidden name = false -> mkpath root name <> keepdir ->
+  running_builddir lock = Some b -> b <> mkpath root name ->
+  In (mkpath root name) (ls sortf root keepdir true lock ents).
+Proof. exact respelled_still_listed. Qed.
+Print Assumptions C15_B_respelled_still_listed.
+
+Theorem C15_B_omits_denoted_partial : forall sortf root keepdir lock ents name,
+  sorts sortf -> distinct_names ents ->
+  running_builddir lock = Some (mkpath root name) ->
+  forall p, In p (ls sortf root keepdir true lock ents) <->
+            In p (ls sortf root keepdir false lock ents) /\ p <> mkpath root name.
+Proof. exact B_omits_denoted_partial. Qed.
+Print Assumptions C15_B_omits_denoted_partial.
+
 (* what "the directory named by the lock file" is *)
 Theorem C15_lock_target : forall lock b,
   running_builddir lock = Some b <-> lock_names lock b.
@@ -119,6 +202,26 @@ Theorem C15_stdout : forall sortf root keepdir (skipB : bool) lock ents exit out
    (exit, out) = ls_main sortf root keepdir skipB lock (Some ents)).
 Proof. exact stdout_oracle_exact. Qed.
 Print Assumptions C15_stdout.
+
+(* both branches: whatever readdir does, the model's exit status and output
+   are accepted by the oracle; a root that cannot be read means a non-zero
+   exit and no output *)
+Theorem C15_stdout_both_branches : forall sortf root keepdir (skipB : bool) lock readdir,
+  sorts sortf ->
+  match readdir with
+  | Some ents => distinct_names ents /\ nonl root /\ Forall (fun de => nonl (d_name de)) ents
+  | None => True
+  end ->
+  spec_ok_stdout root keepdir skipB lock readdir
+    (fst (ls_main sortf root keepdir skipB lock readdir))
+    (snd (ls_main sortf root keepdir skipB lock readdir)) = true /\
+  (forall exit out, spec_ok_stdout root keepdir skipB lock None exit out = true <-> exit <> 0 /\ out = []).
+Proof.
+  exact (fun sortf root keepdir skipB lock readdir Hs H =>
+    conj (ls_main_accepted sortf root keepdir skipB lock readdir Hs H)
+         (stdout_failure_branch root keepdir skipB lock)).
+Qed.
+Print Assumptions C15_stdout_both_branches.
 
 (* the hypothesis about qsort is satisfiable: insertion sort meets it *)
 Theorem C15_qsort_contract_inhabited : sorts isort.
